@@ -4,7 +4,9 @@ in the non-raising mode or hands it to a consumer that tests the mode (C15.a); a
 queues its result before it marks the task done (C15.b); the input index travels with the
 result and the consumer re-sequences by it, advancing by one per yielded value (C15.c); the
 exception transport of both modes (C15.d); order-sensitive users consume the iterator with a
-plain loop (C15.e)."""
+plain loop (C15.e).
+Added in round 5: one stop sentinel per started thread (C15.j); reductions over completely collected
+results (C15.k); a forced stop empties both queues (C15.l)."""
 import ast
 
 from ..engine import rule
